@@ -51,7 +51,7 @@ func Verif_C04_histories() {
 	catalog, pages := K+1, K+2
 	nextStm := K + 3
 	for rev := 0; rev < R; rev++ {
-		kind := verifrt.Choice("kind", 3)
+		kind := verifrt.Choice("kind", 4)
 		var ents []verifXEnt
 		if rev == 0 {
 			ents = append(ents, verifXEnt{0, 65535, 0, true})
@@ -81,6 +81,7 @@ func Verif_C04_histories() {
 					ents = append(ents, verifXEnt{k, st.gen, 0, true})
 				}
 			case 3: // define again after a free, with the bumped generation
+				verifrt.Assume(st.free) // otherwise the same history as action 0
 				if st.free {
 					val := 100*(rev+1) + 50 + k
 					off := f.Len() - hdr
@@ -93,7 +94,7 @@ func Verif_C04_histories() {
 		size := K + 3
 		xrefPos := f.Len() - hdr
 		verifSortEnts(ents)
-		if kind < 2 {
+		writeTable := func(ents []verifXEnt, size int, merge bool, xrefStm int) {
 			f.WriteString("xref\n")
 			if len(ents) == 0 {
 				f.WriteString("0 0\n")
@@ -101,7 +102,7 @@ func Verif_C04_histories() {
 			i := 0
 			for i < len(ents) {
 				j := i + 1
-				for j < len(ents) && ents[j].num == ents[j-1].num+1 && kind == 0 {
+				for j < len(ents) && ents[j].num == ents[j-1].num+1 && merge {
 					j++
 				}
 				fmt.Fprintf(&f, "%d %d\n", ents[i].num, j-i)
@@ -118,14 +119,17 @@ func Verif_C04_histories() {
 			if prev >= 0 {
 				fmt.Fprintf(&f, "/Prev %d", prev)
 			}
+			if xrefStm >= 0 {
+				fmt.Fprintf(&f, "/XRefStm %d", xrefStm)
+			}
 			f.WriteString(">>\n")
-		} else {
-			size = nextStm + 1
-			stmNum := nextStm
-			nextStm++
-			ents = append(ents, verifXEnt{stmNum, 0, xrefPos, false})
+		}
+		writeStream := func(stmNum int, ents []verifXEnt, size int, withPrev bool) {
 			w2 := 2 + verifrt.Choice("w2", 2)
-			w3 := 1 + verifrt.Choice("w3", 2)
+			w3 := 2
+			if verifrt.Tier() > 0 || kind == 2 {
+				w3 = 1 + verifrt.Choice("w3", 2)
+			}
 			var body bytes.Buffer
 			var index []int
 			i := 0
@@ -158,12 +162,46 @@ func Verif_C04_histories() {
 				fmt.Fprintf(&f, "%d ", x)
 			}
 			fmt.Fprintf(&f, "]/Length %d", body.Len())
-			if prev >= 0 {
+			if withPrev && prev >= 0 {
 				fmt.Fprintf(&f, "/Prev %d", prev)
 			}
 			f.WriteString(">>\nstream\n")
 			f.Write(body.Bytes())
 			f.WriteString("\nendstream\nendobj\n")
+		}
+		switch {
+		case kind < 2:
+			writeTable(ents, size, kind == 0, -1)
+		case kind == 2:
+			size = nextStm + 1
+			stmNum := nextStm
+			nextStm++
+			ents = append(ents, verifXEnt{stmNum, 0, xrefPos, false})
+			writeStream(stmNum, ents, size, true)
+		default:
+			// hybrid-reference section (7.5.8.4): the entries of object 1
+			// live in a cross-reference stream named by /XRefStm, everything
+			// else (and the stream object itself) in the table
+			size = nextStm + 1
+			stmNum := nextStm
+			nextStm++
+			var inStm, inTable []verifXEnt
+			for _, e := range ents {
+				if e.num == 1 {
+					inStm = append(inStm, e)
+				} else {
+					inTable = append(inTable, e)
+				}
+			}
+			stmPos := xrefPos
+			if len(inStm) == 0 {
+				inStm = append(inStm, verifXEnt{stmNum, 0, stmPos, false})
+			} else {
+				inTable = append(inTable, verifXEnt{stmNum, 0, stmPos, false})
+			}
+			writeStream(stmNum, inStm, size, false)
+			xrefPos = f.Len() - hdr
+			writeTable(inTable, size, true, stmPos)
 		}
 		fmt.Fprintf(&f, "startxref\n%d\n%%%%EOF\n", xrefPos)
 		prev = xrefPos
